@@ -298,6 +298,8 @@ func (o *Orchestrator) RunStandard() {
 	}
 	var qmu sync.Mutex
 	var hangs []int
+	aborted := 0
+	const maxHangsBeforeAbort = 8
 	pop := func() (span, bool) {
 		qmu.Lock()
 		defer qmu.Unlock()
@@ -323,6 +325,19 @@ func (o *Orchestrator) RunStandard() {
 		go func() {
 			defer wg.Done()
 			for {
+				qmu.Lock()
+				tooManyHangs := len(hangs) >= maxHangsBeforeAbort
+				qmu.Unlock()
+				if tooManyHangs {
+					// fail fast: a change that makes many cases hang would otherwise cost a full watchdog cycle per case
+					qmu.Lock()
+					if len(queue) > 0 {
+						aborted += len(queue)
+						queue = nil
+					}
+					qmu.Unlock()
+					return
+				}
 				sp, ok := pop()
 				if !ok {
 					// another worker may still push re-queued spans
@@ -399,7 +414,14 @@ func (o *Orchestrator) RunStandard() {
 
 	// stage 2: every case that tripped the in-batch watchdog is re-run alone with a larger budget
 	sort.Ints(hangs)
-	for _, idx := range hangs {
+	confirmed := 0
+	for hi, idx := range hangs {
+		if hi >= 4 && confirmed > 0 {
+			o.mu.Lock()
+			o.Sum.Counters["hang_cases_not_rerun_after_confirmation"]++
+			o.mu.Unlock()
+			continue // enough confirmed hangs to report; do not spend a minute on each of the others
+		}
 		c := cases[idx]
 		s2 := 60
 		if ct, ok := o.P.(CaseTimeouts); ok {
@@ -421,11 +443,20 @@ func (o *Orchestrator) RunStandard() {
 		o.mu.Lock()
 		o.stage2++
 		o.mu.Unlock()
+		confirmed++
 		if hp, ok := o.P.(HangPolicy); ok {
 			sig, what, wit := hp.HangSignature(c, ji.detail)
 			o.Violation(c.ID(), idx, sig, what, wit)
 		} else {
 			o.Inconclusive(fmt.Sprintf("case %s did not finish within the wall-clock watchdog (not a verdict for this property)", c.ID()))
+		}
+	}
+	if aborted > 0 {
+		o.mu.Lock()
+		o.Sum.Counters["batches_not_run_after_too_many_hangs"] += int64(aborted)
+		o.mu.Unlock()
+		if confirmed == 0 {
+			o.Inconclusive(fmt.Sprintf("%d batches were not run because %d cases tripped the in-batch watchdog, but none was confirmed alone", aborted, len(hangs)))
 		}
 	}
 }
